@@ -141,3 +141,49 @@ Proof.
     apply repeat_spec in Hy; subst; reflexivity.
 Qed.
 Print Assumptions hash_ok_inhabited.
+
+(* ---- Base32- and SS58-based formats, on the codec models of property C11 (no codec hypothesis:
+        the Base32 / SS58 round-trip, alphabet and length laws are theorems there). *)
+From BU Require Import Gen.AddrTextConsts Model.AddrText.
+From BU Require Lemmas.AddrInst.
+Notation b32e := AddrInst.b32_enc_nopad.
+Notation b32d := AddrInst.b32_dec.
+
+Theorem algo_dec_enc : forall sha512_256 valid_pub pub s, hash_ok sha512_256 32 ->
+  bytes_ok pub -> length pub = (ed25519_compr_len - 1)%nat -> valid_pub 2 pub = true ->
+  algo_encode sha512_256 b32e pub = Ok s -> algo_decode sha512_256 valid_pub b32d s = Ok pub.
+Proof. intros h v p s [H1 H2]. exact (AddrInst.algo_rt h v H1 H2 p s). Qed.
+Print Assumptions algo_dec_enc.
+
+Theorem xlm_dec_enc : forall crc16 valid_pub t pub s, hash_ok crc16 2 -> t < 256 ->
+  bytes_ok pub -> length pub = (ed25519_compr_len - 1)%nat -> valid_pub 2 pub = true ->
+  xlm_encode crc16 b32e t pub = Ok s -> xlm_decode valid_pub crc16 b32d t s = Ok pub.
+Proof. intros c v t p s [H1 H2]. exact (AddrInst.xlm_rt c v H1 H2 t p s). Qed.
+Print Assumptions xlm_dec_enc.
+
+Theorem fil_dec_enc : forall blake2b pub_u s, xof_ok blake2b ->
+  fil_encode blake2b b32e pub_u = Ok s -> fil_decode blake2b b32d s = Ok (blake2b blake2b160_len pub_u).
+Proof. intros b p s [H1 H2]. exact (AddrInst.fil_rt b H1 H2 p s). Qed.
+Print Assumptions fil_dec_enc.
+
+(* Nano: the "1111" pad trick is sound -- three zero bytes in front always encode to four '1' symbols *)
+Theorem nano_dec_enc : forall blake2b valid_pub pub s, xof_ok blake2b ->
+  bytes_ok pub -> length pub = (ed25519_compr_len - 1)%nat -> valid_pub 3 pub = true ->
+  nano_encode blake2b b32e pub = Ok s -> nano_decode blake2b valid_pub b32d s = Ok pub.
+Proof. intros b v p s [H1 H2]. exact (AddrInst.nano_rt b v H1 H2 p s). Qed.
+Print Assumptions nano_dec_enc.
+
+(* Nimiq: IBAN-style mod-97 checksum, groups of four *)
+Theorem nim_dec_enc : forall blake2b pub s, xof_ok blake2b ->
+  nim_encode blake2b b32e pub = Ok s ->
+  nim_decode b32d s = Ok (firstn nim_hash_len (blake2b blake2b256_len pub)).
+Proof. intros b p s [H1 H2]. exact (AddrInst.nim_rt b H1 H2 p s). Qed.
+Print Assumptions nim_dec_enc.
+
+(* Substrate: SS58 of the public key under the coin's format (all formats the encoder accepts) *)
+Theorem substrate_dec_enc : forall blake2b512 valid_pub curve fmt pub s, hash_ok blake2b512 64 ->
+  bytes_ok pub -> valid_pub curve pub = true ->
+  substrate_encode (AddrInst.ss58_enc blake2b512) fmt pub = Ok s ->
+  substrate_decode valid_pub (AddrInst.ss58_dec blake2b512) curve fmt s = Ok pub.
+Proof. intros b v c f p s [H1 H2]. exact (AddrInst.substrate_rt b v H1 H2 c f p s). Qed.
+Print Assumptions substrate_dec_enc.
